@@ -342,6 +342,64 @@ func init() {
 			// nesting at the decoder's documented limit: a tree of exactly that depth round-trips; the statement names no
 			// bound, so a deeper tree that encodes but is refused by the decoder is reported (it is a listed finding)
 			nestRT := []int{ref.NestingLimit - 1, ref.NestingLimit, ref.NestingLimit + 1}
+			// many lists that are not nested in each other: a decoder that counts levels must give each one back (empty
+			// lists, one-element lists and list rows, in numbers around and above the nesting limit, at depth 2 to 4)
+			type wideCase struct {
+				name string
+				mk   func() ast.ItemNode
+			}
+			rep := func(n int, f func(j int) interface{}) ast.ItemNode {
+				v := make([]interface{}, n)
+				for j := range v {
+					v[j] = f(j)
+				}
+				return ast.NewListNode(v...)
+			}
+			var wides []wideCase
+			for _, n := range []int{9999, 10000, 10001, 20001, 65536} {
+				n := n
+				wides = append(wides,
+					wideCase{fmt.Sprintf("L[%d] of empty lists", n), func() ast.ItemNode { return rep(n, func(int) interface{} { return ast.NewListNode() }) }},
+					wideCase{fmt.Sprintf("L[%d] of <L <U1 7>>", n), func() ast.ItemNode {
+						return rep(n, func(int) interface{} { return ast.NewListNode(ast.NewUintNode(1, 7)) })
+					}},
+					wideCase{fmt.Sprintf("L[%d] of <L <L> <A \"x\"> <L <L>>>", n), func() ast.ItemNode {
+						return rep(n, func(int) interface{} {
+							return ast.NewListNode(ast.NewListNode(), ast.NewASCIINode("x"), ast.NewListNode(ast.NewListNode()))
+						})
+					}})
+			}
+			for _, n := range []int{100, 101, 150} {
+				n := n
+				wides = append(wides, wideCase{fmt.Sprintf("%d rows of %d empty lists", n, n), func() ast.ItemNode {
+					return rep(n, func(int) interface{} { return rep(n, func(int) interface{} { return ast.NewListNode() }) })
+				}})
+			}
+			sp = append(sp, h.Space{Name: "many-lists-side-by-side", Count: uint64(len(wides)), ChunkHint: 1,
+				Describe: func(i uint64) interface{} { return wides[i].name },
+				Run: func(c *h.Ctx, i uint64) {
+					msg := ast.NewHSMSDataMessage("", 1, 1, 1, "H<->E", wides[i].mk(), 9, []byte{1, 2, 3, 4})
+					b := msg.ToBytes()
+					d, ok := hsms.Parse(b)
+					c.Ops(3)
+					desc := fmt.Sprintf("S1F1 W message whose item is %s (%d bytes)", wides[i].name, len(b))
+					switch {
+					case len(b) == 0:
+						c.Fail("rt-no-bytes", desc, "complete message encodes to nothing")
+					case !ok || d == nil:
+						c.Fail("rt-decode-refused:many-lists-side-by-side", desc, "a message at most 4 lists deep is refused")
+					case !bytes.Equal(d.ToBytes(), b):
+						c.Fail("rt-reencode-differs:many-lists-side-by-side", desc, "decoded message re-encodes differently")
+					case body(d.(*ast.DataMessage).String()) != body(msg.String()):
+						c.Fail("rt-item-differs:many-lists-side-by-side", desc, "decoded item prints differently")
+					}
+					// a small message decoded next in the same process is not affected by the large one
+					small := ast.NewHSMSDataMessage("", 1, 1, 1, "H<->E", ast.NewListNode(ast.NewListNode(), ast.NewUintNode(1, 7)), 9, []byte{1, 2, 3, 4}).ToBytes()
+					if d2, ok2 := hsms.Parse(small); !ok2 || d2 == nil || !bytes.Equal(d2.ToBytes(), small) {
+						c.Fail("rt-decode-refused:after-many-lists", desc, "the next (small) message is refused or differs")
+					}
+					c.Case(0, true, "many-lists")
+				}})
 			sp = append(sp, h.Space{Name: "round-trip-at-the-nesting-limit", Count: uint64(len(nestRT)) * 2, ChunkHint: 1,
 				Describe: func(i uint64) interface{} {
 					return fmt.Sprintf("%d nested lists around %s", nestRT[i/2], []string{"<U1 7>", "an empty list next to <A \"x\">"}[i%2])
